@@ -41,6 +41,7 @@ func (e *Env) child(g int) *Env {
 	c.its = map[int]segment.PostingsIterator{}
 	c.dvrs = map[int]segment.DocumentValueReader{}
 	c.dvrSeg = map[int]int{}
+	c.dits = map[int]segment.DictionaryIterator{}
 	c.objIDs = map[interface{}]int{}
 	c.itFlags = map[int]itFlags{}
 	c.cov = map[string]int{}
